@@ -220,12 +220,20 @@ def finish(ctx: Ctx, *, t0: float, level: str = "other", explanation: str = "", 
         elif os.path.exists(vpath):
             os.remove(vpath)
     if not quiet:
+        try:
+            _emit(ctx, out, distinct, listed, unlisted)
+        except BrokenPipeError:
+            pass
+    return 1 if unlisted else 0
+
+
+def _emit(ctx, out, distinct, listed, unlisted) -> None:
+    if True:
         print(f"[{ctx.prop}] files={len(ctx.repo.modules)} functions={len(ctx.functions)} "
               f"instances={len(ctx.instances)} distinct={distinct} findings={len(ctx.findings)} "
               f"(known={len(listed)}, unlisted={len(unlisted)})")
         for line in out:
             print(line)
-    return 1 if unlisted else 0
 
 
 def _by_rule(instances: list[dict]) -> dict:
